@@ -3,6 +3,47 @@
 import json, pathlib, sys
 V = pathlib.Path(__file__).resolve().parent.parent
 CHECKS = {
+ "C03": dict(
+   technique="property-based testing over process-level histories: Hypothesis-generated id-counter states at digit boundaries, garbage creations and import orders, each executed in a fresh interpreter; differential oracle against the reference history (import success, value fingerprints of equations, calculation results)",
+   text="Every catalogue module is observed when imported first with fresh counters (reference) and under generated counter states that make its own symbols straddle 9/10, 99/100, ... boundaries (1 state per module quick, 5 thorough), plus 8 (64) full-catalogue imports in generated orders; import must succeed and every equation's value fingerprint (keyed by display name + dimension) and every calculation result must equal the reference.",
+   note="Trusted: a fork right after `import symplyphysics` equals a fresh interpreter with that pre-history; M-interp value semantics; PYTHONHASHSEED pinned. Histories are sampled, not enumerated; address-dependent effects are not controlled. One open known finding (focal_length_of_a_concave_spherical_mirror).",
+   ref="DESIGN.md section 2/C03"),
+ "C04": dict(
+   technique="property-based testing: Hypothesis-generated (actual, declared) dimension-vector pairs, value shapes and call styles against the M-dim model verdict (reference model + metamorphic invariance under magnitude/prefix/call style), plus exhaustive sweep of all 1744 catalogue guards",
+   text="4k generated gate cases quick / 60k thorough over synthesised decorated functions (input, output, output_same validators; scalars, sequences with the bad element at a generated position, quantity vectors; Dimension/Symbol/Function/IndexedSymbol/Symbolic/tuple declarations); the model predicts accepted / TypeError / UnitsError and that the body runs iff accepted. Exhaustive: every guard of every decorated catalogue function names an existing parameter and refuses 2 (6) wrong-dimension values with an error naming the parameter before the body runs.",
+   note="Trusted: M-dim arithmetic, closure introspection of the decorators. zoo is generated but not judged. Two open known findings (all-zero QuantityVector refused; one catalogue guard naming a non-existent parameter that an existing test pins).",
+   ref="DESIGN.md section 2/C04; notes/C04.md"),
+ "C05": dict(
+   technique="property-based testing: expression trees generated together with their intended exact SI value and dimension vector (reference model), single-spoiler and wildcard mutations, cancelling partial sums",
+   text="4k trees quick / 80k thorough: valid trees must give the model's SI value and dimension; trees with exactly one spoiler (inequivalent term, dimensional exponent or function argument, free symbol, derivative) must be refused with ValueError; wildcard mutations (zero/inf/NaN term of a foreign dimension) must still be accepted; verdicts are judged on the terms as written.",
+   note="Trusted: vp/model/qexpr.py (exact SymPy numbers + M-dim + M-units). NaN under Min/Max, zoo and infinite exponents are discarded and counted.",
+   ref="DESIGN.md section 2/C05; notes/C05.md"),
+ "C06": dict(
+   technique="property-based testing: generated trees over dimensioned symbols/functions/derivatives/quantities vs. M-dim composition (reference model), value-equality of the returned expression, refusal exactly for spoiled trees, commuting diagram with Quantity substitution (differential with C05)",
+   text="3k trees quick / 60k thorough; the returned dimension must equal the model composition of the declared leaf dimensions, the returned expression must be value-equal to the input, errors must occur exactly for spoiled trees, and substituting non-zero quantities for the symbols must give a quantity of the inferred dimension.",
+   note="Trusted: vp/model/qexpr.py; applied functions interpreted by a fixed polynomial. Five open known findings (minor classes of collect_expression_and_dimension) are excluded by construction and counted.",
+   ref="DESIGN.md section 2/C06; notes/C06.md"),
+ "C07": dict(
+   technique="property-based testing: generated quantities x independently generated equivalent/inequivalent target unit expressions vs. exact M-units factors (reference model), composition/round-trip/linearity relations, evaluate_expression value preservation, Celsius/kelvin round trips",
+   text="4k cases quick / 100k thorough over base, derived, prefixed units and products/quotients/powers of them; n = convert_to(q, u) must equal model(q)/model(u) exactly for rational cases (1e-12 otherwise), conversions compose and invert, convert_to_si equals the scale factor, inequivalent targets are refused.",
+   note="Trusted: vp/model/units.py hand-typed SI table (self-checked against SymPy's own unit definitions), vp/model/unitexpr.py. Refusal of a zero magnitude for an inequivalent target is left unjudged (wildcard rule vs property text).",
+   ref="DESIGN.md section 2/C07; notes/C07.md"),
+ "C08": dict(
+   technique="property-based testing: operand pairs constructed around the tolerance boundary (must-pass band, must-fail band, unjudged strip) with independent units, metamorphic symmetry and unit-independence relations, vector conjunction",
+   text="20k pairs quick / 400k thorough for assert_equal, assert_equal_vectors, approx_equal_quantities, approx_equal_numbers: verdict must follow the band semantics of the property, refuse inequivalent dimensions, be symmetric without absolute tolerance, not depend on units, compare bare numbers only under an explicit dimension and vectors component-wise with equal lengths.",
+   note="Trusted: the band semantics as written in the property; pairs closer than a stated margin to a boundary are discarded. The absolute tolerance is judged only where the gram-scaled and the SI reading agree (documented ambiguity).",
+   ref="DESIGN.md section 2/C08; notes/C08.md"),
+ "C09": dict(
+   technique="stateful property-based testing: Hypothesis RuleBasedStateMachine over creation/clone histories with colliding display names, no-aliasing invariants after every step (subs/diff/solve/dict keys), clone postconditions, printing invariant; collect mode with replayable step lists",
+   text="242 histories x 40 steps quick / 2.3k x 60 thorough over Symbol, IndexedSymbol, Function, Quantity, CoordinateSystem, VectorSymbol/VectorFunction creations and clones with tiny name pools and counter bumps to digit boundaries; after every step all live objects must be pairwise distinct in substitution, differentiation and solving, clones keep dimension/display names/assumptions and append subscripts to both names, and the three printers never show generated internal names.",
+   note="Trusted: the model dict maintained by the rules. Two open known findings (printing of applied VectorFunctions; IndexedSymbol rebuilt by .doit()).",
+   ref="DESIGN.md section 2/C09; notes/C09.md"),
+ "C20": dict(
+   technique="exhaustive enumeration of the constants catalogue against an independent CODATA/IAU reference table typed into the harness (differential oracle), unit views through the M-units table, the seven identities",
+   text="All 27 Quantity constants of symplyphysics.quantities (25 exported + 2 defined but not exported) are compared with reference value, dimension vector and a per-row tolerance derived from the digits written in the source; every constant is additionally viewed in every tabled unit of its dimension; the seven identities of the property are checked at 1e-9.",
+   note="Trusted: the reference table in vp/checks/c20.py (CODATA 2018/2022, IAU 2015). Finite space, enumerated completely.",
+   category="exploration",
+   ref="DESIGN.md section 2/C20; notes/C20.md"),
  "C02": dict(
    technique="property-based testing: exhaustive discovery of the 777 public catalogue functions + Hypothesis-generated argument recipes (magnitudes, signs, units, prefixes); residual oracle against the published equation at 50 digits with a backward-error tolerance, and unit/call-style metamorphic relation",
    text="For every function whose parameters and output correspond one-to-one to symbols of a published algebraic equation (503 of 777) the returned value and the arguments are substituted into that equation (root-agnostic residual; documented magnitude/rounded-up functions are compared with that operation applied to the harness's own solution); for every function the same physical arguments written in other units and passed by keyword must give the same SI result. 2 recipes per function quick, 24 thorough.",
